@@ -583,6 +583,26 @@ def _eval_sweep(cases):
             findings.append(dict(kind='property', key=_key(fn, 'raises'), detail=dict(det, exc=got[1], msg=got[2])))
         elif base[0] == 'exc' and got[0] == 'ok':
             findings.append(dict(kind='property', key=_key(fn, 'answers'), detail=dict(det, base_exc=base[1], msg=base[2])))
+        # the caller reuses its arrays: the very same objects first hold other content of the same kind (their own
+        # content reversed; the call's result is discarded), are refilled IN PLACE with this case's data, and the call
+        # is repeated: the answer may depend on what the arrays hold now, not on what these objects held before
+        if got[0] == 'ok' and not e['canvas']:
+            a2 = laid_out({k: (v.copy() if isinstance(v, np.ndarray) else v) for k, v in args.items()}, pos, layout)
+            keep = {k: v.copy() for k, v in a2.items()
+                    if isinstance(v, np.ndarray) and v.flags.writeable and v.size > 1 and k not in e['canvas']}
+            if keep:
+                for k, kv in keep.items():
+                    a2[k][...] = kv.ravel()[::-1].reshape(kv.shape)
+                run_call(e, a2)
+                for k, kv in keep.items():
+                    a2[k][...] = kv
+                again = run_call(e, a2)
+                if again[0] != 'ok':
+                    findings.append(dict(kind='property', key=_key(fn, 'reuse'), detail=dict(det, again=str(again)[:200])))
+                else:
+                    why = same(got[1], again[1])
+                    if why:
+                        findings.append(dict(kind='property', key=_key(fn, 'reuse'), detail=dict(det, why=why)))
         # heap histories: the same laid-out call in two other processes
         for hi, hres in enumerate(heap):
             h = hres[idx]
